@@ -140,10 +140,14 @@ def _is_stride32(e):
 
 
 def _columns_times_stride(e):
+    """columns * rows of the AVX2 striped matrix, with the 32 columns spelled as the call, the type-level constant or the literal, and the
+    rows as matrix.rows() or the value the matrix was resized to."""
     e = norm(e)
     if e[0] == 'bin' and e[1] in ('Mul', 'MulUnchecked'):
         for a, b in ((e[2], e[3]), (e[3], e[2])):
-            if a[0] == 'call' and a[1].endswith('DenseMatrix::columns') and _is_stride32(b):
+            cols = (a[0] == 'call' and a[1].endswith('DenseMatrix::columns')) or (a[0] == 'kc' and str(a[1]).endswith('Unsigned::USIZE')) or a == ('k', 32)
+            rows = _is_stride32(b) or (b[0] == 'call' and b[1].endswith('DenseMatrix::rows'))
+            if cols and rows:
                 return True
     return False
 
@@ -304,6 +308,29 @@ def r44(db, ctx):
         row, col = tg[1][2], tg[2]
         b = m(('bin', 'Rem', '$i', '$r'), row)
         c = m(('bin', 'Div', '$i', '$r'), col)
+        if b is None and c is None and iteralg.is_pos(row) and iteralg.is_pos(col):
+            # nested form: for col in 0..C { for row in 0..R { data[row][col] = if col*R + row < len { s[col*R + row] } else { default } } }:
+            # (row, col) ranges over [0, R) x [0, C) and i = col*R + row is the cell's linear index (i mod R = row, i div R = col)
+            er, ec = CA.extents.get(row[1]), CA.extents.get(col[1])
+            Lr = _loop_with_header_or_iter(f, R, row[1]) if not isinstance(row[1], tuple) else None
+            Lc = _loop_with_header_or_iter(f, R, col[1]) if not isinstance(col[1], tuple) else None
+            okn = bool(er) and bool(ec) and len(er) == 1 and len(ec) == 1 and er[0][0] == 'sub' and er[0][2] == ('k', 0) and ec[0][0] == 'sub' and ec[0][2] == ('k', 0) \
+                and common.is_usize_const(ec[0][1], 'C') and Lr is not None and Lc is not None and len(_normal_exits(f, Lr)) == 1 and len(_normal_exits(f, Lc)) == 1
+            v = CA.canon(s['value']) if okn else None
+            if okn and v[0] == 'ite':
+                Re = er[0][1]
+                i_lin = ('bin', 'Add', ('bin', 'Mul', col, Re), row)
+                l = m(('bin', 'Lt', '$i', '$n'), v[1])
+                pv = m(('at', '$s', '$i2'), v[2])
+                if l is not None and pv is not None and X.lin_eq(l['$i'], i_lin) and X.lin_eq(pv['$i2'], i_lin) and common.is_len_of(l['$n'], norm(pv['$s'])) \
+                        and norm(pv['$s']) == ('p', 2) and (rows_e is None or rows_e == Re):
+                    rows_e = Re
+                    i = ('sym', 'i')
+                    pieces.append((('k', 0), l['$n'], ('at', pv['$s'], i), i))
+                    pieces.append((l['$n'], ('bin', 'Mul', ec[0][1], Re), v[3], i))
+                    continue
+            probs.append(f'cell [{X.show(row, 40)}][{X.show(col, 40)}] is not [i % R][i / R] (nor the nested form over 0..R x 0..C with i = col*R + row)')
+            continue
         if b is None or c is None or b != c or (rows_e is not None and rows_e != b['$r']):
             probs.append(f'cell [{X.show(row, 40)}][{X.show(col, 40)}] is not [i % R][i / R]')
             continue
@@ -373,6 +400,13 @@ def r44(db, ctx):
     rs = [norm(R.operand(t['args'][1])) for bi, t in f.calls() if (f.callee_short(t) or '').endswith('DenseMatrix::resize')]
     if not (rs and rows_e is not None and rs[0] == rows_e):
         probs.append('matrix is not resized to R rows')
+    else:
+        # on every path: a reused buffer that is already larger must shrink too, or data.rows() - wrap no longer is the row count of
+        # the new sequence (seed C04-7: `if data.rows() < rows { resize }`)
+        rb = [bi for bi, t in f.calls() if (f.callee_short(t) or '').endswith('DenseMatrix::resize')]
+        if not all(f.dominates(rb[0], x_) for x_ in f.exits()):
+            probs.append('the matrix is resized to R rows on some paths only: a reused buffer with more rows keeps them, and every consumer computes the '
+                         'number of sequence rows as rows() - wrap')
     n = 0
     if not probs:
         n += 1
@@ -596,6 +630,13 @@ def r48(db, ctx):
         ctx.fail('R4.8', f, 'configure -> configure_wrap', '; '.join(probs), span=t['span'])
     else:
         ctx.ok('R4.8', f, 'configure_wrap(motif.len() - 1) under motif non-empty only', ['single delegation', 'no further guard'])
+
+
+def stripe_rules(db, ctx):
+    """Striping itself (shared into C01: the kernels score the striped matrix, not the sequence)."""
+    r41_42(db, ctx)
+    r43(db, ctx)
+    r44(db, ctx)
 
 
 def lookahead_rules(db, ctx):
